@@ -5,7 +5,7 @@ import random
 from runner import Report, run_shards, merge, seed
 
 INVS = ['OrderFree', 'CycleAgreement', 'DenoteClosed']
-SCENARIOS = ['A', 'B', 'C', 'D', 'E', 'R']
+SCENARIOS = ['A', 'B', 'C', 'D', 'E', 'R', 'P']
 
 
 def _cfg(scen, shard, nshards, mode, wfonly=False):
